@@ -1220,3 +1220,38 @@ Proof.
   - exists None. split; [reflexivity|]. split; [discriminate|]. intro x. rewrite In_diffN. cbn. tauto.
   - exists None. split; [reflexivity|]. split; [discriminate|]. intro x. rewrite In_diffN. cbn. tauto.
 Qed.
+
+(* ---------------------------------------------------------------- lnt: the TRANSITS step leads into the space *)
+(* whatever element of tuple(set(...)) Python picks as rhs[key][0]: every candidate count c of the returned
+   ('TRANSITS', c, depot) is offered by the space with that depot and is not a transit feature of the model *)
+Lemma lnt_transits_targets (a b : list pstmt) items :
+  forallb pstmt_ok a = true -> forallb pstmt_ok b = true ->
+  lnt_transits a b = Ok items ->
+  forall i, In i items ->
+    exists d cs, i = LTransits d cs /\ cs <> [] /\
+      forall c, In c cs -> In (c, d) (E_pairs [] w_depot b) /\ ~ In (c, d) (E_pairs [] w_depot a).
+Proof.
+  intros Ha Hb. unfold lnt_transits.
+  destruct (add_helper_spec [] w_depot a b Ha Hb) as [u1 [u2 [j [E [A [B C]]]]]].
+  destruct (add_helper_shape _ _ _ _ _ _ _ E) as [S2 _]. rewrite E. cbn [bind].
+  assert (Hmem : forall k v0, In (k, v0) u2 -> v0 <> [] /\ forall c, In c v0 -> In (c, k) (E_pairs [] w_depot b) /\ ~ In (c, k) (E_pairs [] w_depot a)).
+  { intros k v0 Hin. split.
+    - rewrite Forall_forall in S2. exact (S2 (k, v0) Hin).
+    - intros c Hc. apply B. apply In_E_dict_stmts. exists v0. auto. }
+  destruct (is_nil j && negb (is_nil u2)); [|intro H; injection H as <-; intros i []].
+  destruct (find (fun kv => existsb (fun kv2 => fst kv =? fst kv2) u2) u1) as [kv|] eqn:Ef.
+  - intro H. injection H as <-. intros i [<-|[]].
+    apply find_some in Ef. destruct Ef as [_ Hex]. apply existsb_exists in Hex. destruct Hex as [[k2 v2] [Hin2 Hk]].
+    cbn in Hk. apply N.eqb_eq in Hk.
+    (* the looked-up list is the value stored under that depot *)
+    assert (Hget : exists v0, In (fst kv, v0) u2 /\ dict_get u2 (fst kv) = v0).
+    { unfold dict_get. destruct (find (fun kv0 => fst kv0 =? fst kv) u2) as [[k0 v0]|] eqn:Ef2.
+      - apply find_some in Ef2. destruct Ef2 as [Hin Hk0]. cbn in Hk0. apply N.eqb_eq in Hk0. subst k0. exists v0. auto.
+      - exfalso. apply (find_none _ _ Ef2 (k2, v2)) in Hin2. cbn in Hin2. rewrite Hk, N.eqb_refl in Hin2. discriminate. }
+    destruct Hget as [v0 [Hin0 ->]]. destruct (Hmem _ _ Hin0) as [Hne Hall].
+    exists (fst kv), v0. auto.
+  - destruct u2 as [|[k v0] u2'].
+    + intro H. injection H as <-. intros i [].
+    + intro H. injection H as <-. intros i [<-|[]]. destruct (Hmem k v0 (or_introl eq_refl)) as [Hne Hall].
+      exists k, v0. auto.
+Qed.
